@@ -9,6 +9,7 @@ import (
 	"strconv"
 	"strings"
 	"testing"
+	"time"
 	"unicode/utf8"
 
 	"github.com/biogo/biogo/alphabet"
@@ -47,7 +48,7 @@ type GffAttr struct {
 }
 
 type GffItem struct {
-	Kind string `json:"kind"` // feature | region | seq
+	Kind string `json:"kind"` // feature | region | seq | meta
 	// feature
 	SeqName  string    `json:"seqname,omitempty"`
 	Source   string    `json:"source,omitempty"`
@@ -64,6 +65,29 @@ type GffItem struct {
 	// seq
 	Alpha   string `json:"alpha,omitempty"`
 	Letters string `json:"letters,omitempty"`
+	// region: ViaMeta writes the line with WriteMetaData(*Feature), the
+	// other documented way to emit a sequence-region line
+	ViaMeta bool `json:"via_meta,omitempty"`
+	// meta: a metadata or comment line the writer can emit and the reader
+	// passes over: type-dna | type-rna | type-protein | date | source | comment
+	Meta string `json:"meta,omitempty"`
+}
+
+// writeMeta emits a metadata item.
+func writeMeta(w *gff.Writer, meta string) (int, error) {
+	switch meta {
+	case "type-dna":
+		return w.WriteMetaData(feat.DNA)
+	case "type-rna":
+		return w.WriteMetaData(feat.RNA)
+	case "type-protein":
+		return w.WriteMetaData(feat.Protein)
+	case "date":
+		return w.WriteMetaData(time.Date(2020, 1, 2, 0, 0, 0, 0, time.UTC))
+	case "source":
+		return w.WriteMetaData("source-version prog 1.0")
+	}
+	return w.WriteComment("a comment")
 }
 
 type C02Plan struct {
@@ -125,7 +149,7 @@ func genField(r *simrt.RNG, noSpace bool) string {
 		s := strings.TrimSpace(string(b))
 		if r.Intn(10) == 0 {
 			// text is not restricted to ASCII
-			u := []string{"à", "Å", "é", "ß", "ü", "日本", "Ω", "ñ"}[r.Intn(8)]
+			u := []string{"à", "Å", "é", "ß", "ü", "日本", "Ω", "ñ", "\ufeff"}[r.Intn(9)]
 			switch r.Intn(3) {
 			case 0:
 				s += u
@@ -198,6 +222,9 @@ func genBed(r *simrt.RNG) C02Plan {
 			b.Starts = append(b.Starts, genCoord(r))
 		}
 		pl.Beds = append(pl.Beds, b)
+	}
+	if len(pl.Beds) > 0 && r.Intn(40) == 0 {
+		pl.Beds[0].Chrom = "\ufeff" + pl.Beds[0].Chrom
 	}
 	return pl
 }
@@ -341,12 +368,21 @@ func genGff(r *simrt.RNG) C02Plan {
 			it = GffItem{Kind: "region", SeqName: genField(r, true)}
 			it.Start = r.Pick(0, 1, r.Intn(100000), -1, -r.Intn(100000))
 			it.End = it.Start + 1 + r.Intn(5000)
+			it.ViaMeta = r.Intn(3) == 0
+			if r.Intn(4) == 0 {
+				// the lines a writer may put in front of it
+				pl.Items = append(pl.Items, GffItem{Kind: "meta", Meta: []string{"type-dna", "type-rna", "type-protein", "date", "source", "comment"}[r.Intn(6)]})
+			}
 		default:
 			it = GffItem{Kind: "seq", SeqName: genField(r, true), Alpha: gffAlphas[r.Intn(len(gffAlphas))]}
 			ln := r.Pick(1, 2, r.Range(1, 150), r.Range(4090, 4100), r.Range(8190, 9000))
 			it.Letters = genLetters(r, it.Alpha, ln)
 		}
 		pl.Items = append(pl.Items, it)
+	}
+	if len(pl.Items) > 0 && pl.Items[0].Kind == "feature" && r.Intn(40) == 0 {
+		// the very first bytes of a stream: text that begins like a byte order mark
+		pl.Items[0].SeqName = "\ufeff" + pl.Items[0].SeqName
 	}
 	return pl
 }
@@ -499,8 +535,19 @@ func writeFeatsTo(pl *C02Plan, sink *simio.Sink) (text []byte, want []string, wr
 			sink.RejectCall = sink.NCalls + 1 + pl.RejectOffset
 		}
 		before := len(sink.Buf)
-		f := it.build()
-		n, err := w.Write(f)
+		var f feat.Feature
+		var n int
+		var err error
+		switch {
+		case it.Kind == "meta":
+			n, err = writeMeta(gw, it.Meta)
+		case it.Kind == "region" && it.ViaMeta:
+			f = it.build()
+			n, err = gw.WriteMetaData(&gff.Feature{SeqName: it.SeqName, FeatStart: it.Start, FeatEnd: it.End})
+		default:
+			f = it.build()
+			n, err = w.Write(f)
+		}
 		if pl.RejectOffset > 0 && sink.Rejected && n != len(sink.Buf)-before {
 			return nil, nil, 0, viol(site+"-bytecount-on-failure", "item %d (%s): Write returned n=%d but %d bytes were emitted (the medium refused call %d of this Write once; Write returned %v)", i, it.Kind, n, len(sink.Buf)-before, pl.RejectOffset+1, err)
 		}
@@ -526,6 +573,9 @@ func writeFeatsTo(pl *C02Plan, sink *simio.Sink) (text []byte, want []string, wr
 		}
 		if sink.Failed {
 			return sink.Buf, want, sink.NCalls, nil
+		}
+		if it.Kind == "meta" {
+			continue // nothing to read back: the reader passes over it
 		}
 		// the text carries 1-based inclusive coordinates
 		switch it.Kind {
